@@ -20,7 +20,7 @@ impl Monitor for C17 {
         vec![("loops", tier.pick(240_000, 4_800_000))]
     }
     fn rule(&self) -> &'static str {
-        "case i -> accumulation (i mod 5), input skips (i/5 mod 2), iterations k = 1 + (i/10 mod 4), representation (i/40 mod 3: dense range / spatial range of 'same' convolutions, deconvolutions, 1x1 pools and deconvolution+max-pool pairs / the same followed by a dense layer so that the loop output is flattened), position of the range (start / middle / end) and its length 1..3 random; predict is compared with the reference (o_0 = first output of layer b, o_t = f_{a..b}(o_{t-1} [+ input of a]), passed on = combine(o_0; o_1..o_k)) within the running f32 bound; for overwrite without input skips additionally bit-exact against a plain library network in which layers a..b are physically repeated k+1 times with the same weights. Distinct = distinct configuration descriptors."
+        "case i -> accumulation (i mod 5), input skips (i/5 mod 2), iterations k = 1 + (i/10 mod 4), representation (i/40 mod 3: dense range / spatial range of 'same' convolutions, deconvolutions, 1x1 pools and deconvolution+max-pool pairs / the same followed by a dense layer so that the loop output is flattened), position of the range (start / middle / end) and its length 1..3 random, every sixth network additionally has an additive skip connection outside the looped range; predict is compared with the reference (o_0 = first output of layer b, o_t = f_{a..b}(o_{t-1} [+ input of a]), passed on = combine(o_0; o_1..o_k)) within the running f32 bound; for overwrite without input skips additionally bit-exact against a plain library network in which layers a..b are physically repeated k+1 times with the same weights. Distinct = distinct configuration descriptors."
     }
     fn assumptions(&self) -> Vec<&'static str> {
         vec!["reference loop semantics written from the property statement (refmodel::RNet::forward)", "no skip connection targets a layer inside the loop range in the generated networks"]
@@ -61,6 +61,19 @@ impl Monitor for C17 {
         let (a, b) = *rng.pick(if cands.is_empty() { &ranges } else { &cands });
         cfg.loops = vec![(b, a, iters, inskips)];
         cfg.loopacc = acc;
+        // sometimes an (additive) skip connection elsewhere in the network: neither its source nor
+        // its target lies inside the looped range
+        if idx % 6 == 5 {
+            let outside: Vec<(usize, usize)> = (0..cfg.layers.len())
+                .flat_map(|s| (s..cfg.layers.len()).map(move |t| (s, t)))
+                .filter(|(s, t)| (*s < a || *s > b) && (*t < a || *t > b) && shapes[*s].0.count() == shapes[*t].0.count() && !matches!(cfg.layers[*s], LCfg::Pool { .. } if false))
+                .collect();
+            if !outside.is_empty() {
+                cfg.skips = vec![*rng.pick(&outside)];
+                cfg.skipacc = Acc::Add;
+                out.count("networks_with_a_skip_connection_outside_the_loop", 1);
+            }
+        }
         let flattened = shapes[b].2;
         let has_pool = (a..=b).any(|i| matches!(cfg.layers[i], LCfg::Pool { .. }));
         out.key = cfg.describe();
